@@ -201,6 +201,8 @@ func init() {
 	// the parameterised entry points at other matrix sizes (whatever they return, they return it purely)
 	add("MatrixRankProto(16x16)", 1024, false, func(in *Input) Res { return f2(randomness.MatrixRankProto(in.Bits, 16, 16)) })
 	add("MatrixRankTestBytes(8x8)", 1024, false, func(in *Input) Res { return f2(randomness.MatrixRankTestBytes(in.Bytes, 8, 8)) })
+	add("MatrixRankProto(32x31)", 1024, false, func(in *Input) Res { return f2(randomness.MatrixRankProto(in.Bits, 32, 31)) })
+	add("MatrixRankProto(32x16)", 1024, false, func(in *Input) Res { return f2(randomness.MatrixRankProto(in.Bits, 32, 16)) })
 	add("CumulativeTest(fwd)", 128, false, func(in *Input) Res { return f2(randomness.CumulativeTest(in.Bits, true)) })
 	add("CumulativeTest(bwd)", 128, false, func(in *Input) Res { return f2(randomness.CumulativeTest(in.Bits, false)) })
 	for _, m := range []int{2, 5, 7} {
